@@ -46,6 +46,16 @@ def payload(seed, idx, size, kind):
         out += hashlib.sha256(("%d:%d:%d" % (seed, idx, c)).encode()).digest()
         c += 1
     return bytes(out[:size])
+if plan.get("own_records"):
+    # the command leaves files of its own under the names Conductor uses for its records (copied from a dependency, written
+    # by a framework that also calls its config "options.json"): the documentation says Conductor's records replace them
+    # (only where a record is due: a file of that name left by the command when the declared value is EMPTY is the command's own
+    # output - Conductor writes no record then and is not asked to remove other people's files)
+    own = [fn for fn, due in (("args.json", any(not a.startswith("--") for a in sys.argv[1:])),
+                              ("options.json", any(a.startswith("--") for a in sys.argv[1:]))) if due]
+    for fn in own:
+        with open(os.path.join(os.environ["COND_OUT"], fn), "w") as f_:
+            json.dump({"written-by": "the command itself", "padding": "x" * 4000, "list": list(range(200))}, f_, indent=2)
 fds = {1: sys.stdout.buffer, 2: sys.stderr.buffer}
 blocks = list(enumerate(plan["blocks"]))
 late = blocks.pop() if (plan.get("late_last") and blocks) else None
@@ -134,7 +144,7 @@ def scenario(rng, k, mode):
     ambient = {"COND_SLOT": str(k % 3), "COND_NAME": "outer", "COND_OUT": "/nonexistent/outer.task"} if k % 5 in (2, 3) else {}
     # the command may FAIL after having written its output: the logs are exact all the same (the records are not required then)
     code = rng.choice([0, 0, 0, 3, 1, 128])
-    return {"k": k, "mode": mode, "plan": {"seed": k, "blocks": blocks, "exit": code, "late_last": k % 6 in (1, 4)}, "args": args, "opts": opts,
+    return {"k": k, "mode": mode, "plan": {"seed": k, "blocks": blocks, "exit": code, "late_last": k % 6 in (1, 4), "own_records": k % 4 == 1 and code == 0}, "args": args, "opts": opts,
             "ambient": ambient}
 
 
